@@ -82,10 +82,22 @@ type ErrorListener struct {
 	*antlr.DefaultErrorListener
 	Error error
 	Data  string
+	count int // syntax errors reported so far
 }
+
+// maxSyntaxErrors bounds how many syntax errors are recorded. Every recorded
+// error quotes the whole input and wraps the errors before it, so without a
+// bound an input of n bad characters costs time and memory cubic in n.
+const maxSyntaxErrors = 10
 
 // SyntaxError is called by ANTLR when a syntax error occurs.
 func (l *ErrorListener) SyntaxError(_ antlr.Recognizer, _ any, line, column int, msg string, e antlr.RecognitionException) {
+	if l.count++; l.count > maxSyntaxErrors {
+		if l.count == maxSyntaxErrors+1 {
+			l.Error = fmt.Errorf("%w\n(further syntax errors are not listed)", l.Error)
+		}
+		return
+	}
 	if l.Error == nil {
 		l.Error = fmt.Errorf("line %d:%d %s >> text: %q", line, column, msg, l.Data)
 		return
